@@ -22,8 +22,6 @@ pub mod wait_io;
 use std::ops::Deref;
 use std::os::fd::{AsFd, BorrowedFd};
 use std::os::unix::io::{AsRawFd, RawFd};
-#[cfg(feature = "io_timeout")]
-use std::sync::atomic::AtomicBool;
 use std::sync::atomic::{AtomicUsize, Ordering};
 use std::sync::Arc;
 use std::{fmt, io};
@@ -86,13 +84,19 @@ fn timeout_handler(data: TimerData) {
     }
 
     let event_data = unsafe { &mut *data.event_data };
+    // the entry belongs to one operation: once that one is over, by whatever
+    // path, or another timer was armed the entry is stale and must not touch
+    // the operation that is blocked on the socket now
+    if event_data.timer_id.load(Ordering::Acquire) != data.id {
+        return;
+    }
     #[cfg(may_verif)]
     may_queue::verif::point(may_queue::verif::site::IO_TIMEOUT_HANDLER_ENTER, 0);
     // remove the event timer
     event_data.timer.take();
     // leave a trace before looking for the coroutine: a `subscribe` that stores
     // it later than that has to report the timeout itself
-    event_data.timer_fired.store(true, Ordering::SeqCst);
+    event_data.timer_fired.store(data.id, Ordering::SeqCst);
 
     #[cfg(may_verif)]
     may_queue::verif::point(may_queue::verif::site::IO_TIMEOUT_TIMER_TAKEN, 0);
@@ -101,6 +105,18 @@ fn timeout_handler(data: TimerData) {
         Some(co) => co,
         None => return,
     };
+
+    // our operation may have ended since the check above (a cancel, an event seen
+    // by its `subscribe` on another thread) and this may be the coroutine of a
+    // later one, whoever ends an operation resets the id first
+    if event_data
+        .timer_id
+        .compare_exchange(data.id, 0, Ordering::AcqRel, Ordering::Acquire)
+        .is_err()
+    {
+        event_data.republish(co);
+        return;
+    }
 
     set_co_para(&mut co, io::Error::new(io::ErrorKind::TimedOut, "timeout"));
 
@@ -112,6 +128,8 @@ fn timeout_handler(data: TimerData) {
 #[cfg(feature = "io_timeout")]
 pub struct TimerData {
     event_data: *mut EventData,
+    // the value of `EventData::timer_id` while the operation of this entry lasts
+    id: usize,
 }
 
 #[cfg(feature = "io_timeout")]
@@ -127,9 +145,12 @@ pub struct EventData {
     // set by the thread that subscribes the io, taken by the selector thread
     #[cfg(feature = "io_timeout")]
     pub timer: AtomicOption<TimerHandle>,
-    // set by the timeout handler, cleared when the next timer is armed
+    // id of the last timer that fired, written by the timeout handler
     #[cfg(feature = "io_timeout")]
-    pub timer_fired: AtomicBool,
+    pub timer_fired: AtomicUsize,
+    // id of the armed timer while its operation lasts, 0 otherwise
+    #[cfg(feature = "io_timeout")]
+    pub timer_id: AtomicUsize,
     pub co: AtomicOption<CoroutineImpl>,
 }
 
@@ -144,8 +165,33 @@ impl EventData {
             #[cfg(feature = "io_timeout")]
             timer: AtomicOption::none(),
             #[cfg(feature = "io_timeout")]
-            timer_fired: AtomicBool::new(false),
+            timer_fired: AtomicUsize::new(0),
+            #[cfg(feature = "io_timeout")]
+            timer_id: AtomicUsize::new(0),
             co: AtomicOption::none(),
+        }
+    }
+
+    /// used by the timeout handler to hand back a coroutine that belongs to a later
+    /// operation than its entry: published the way `subscribe` does it
+    #[cfg(feature = "io_timeout")]
+    fn republish(&self, co: CoroutineImpl) {
+        #[cfg(feature = "io_cancel")]
+        let _handle = crate::coroutine_impl::co_get_handle(&co);
+        #[cfg(feature = "io_cancel")]
+        let cancel = crate::coroutine_impl::co_cancel_data(&co);
+        self.co.store(co);
+        // an event that came while the slot was empty only left its flag
+        if self.io_flag.load(Ordering::Acquire) != 0 {
+            return self.schedule();
+        }
+        // so did a cancel
+        #[cfg(feature = "io_cancel")]
+        if cancel.is_canceled() {
+            if let Some(co) = self.co.take() {
+                self.disarm_timer();
+                get_scheduler().schedule(co);
+            }
         }
     }
 
@@ -154,6 +200,7 @@ impl EventData {
     /// thread may unlink the entry, from elsewhere it can only be disarmed
     #[cfg(feature = "io_timeout")]
     pub fn disarm_timer(&self) {
+        self.timer_id.store(0, Ordering::Release);
         if let Some(h) = self.timer.take() {
             unsafe {
                 h.with_mut_data(|value| value.data.event_data = std::ptr::null_mut());
@@ -165,8 +212,10 @@ impl EventData {
     /// armed for it fired while the slot was still empty the timeout is reported here
     #[cfg(feature = "io_timeout")]
     pub fn check_timer_fired(&self) {
-        if self.timer_fired.swap(false, Ordering::SeqCst) {
+        let id = self.timer_id.load(Ordering::Acquire);
+        if id != 0 && self.timer_fired.load(Ordering::SeqCst) == id {
             if let Some(mut co) = self.co.take() {
+                self.timer_id.store(0, Ordering::Release);
                 set_co_para(&mut co, io::Error::new(io::ErrorKind::TimedOut, "timeout"));
                 get_scheduler().schedule(co);
             }
@@ -175,8 +224,13 @@ impl EventData {
 
     #[cfg(feature = "io_timeout")]
     pub fn timer_data(&self) -> TimerData {
+        // a new timer for a new operation
+        static NEXT_ID: AtomicUsize = AtomicUsize::new(1);
+        let id = NEXT_ID.fetch_add(1, Ordering::Relaxed);
+        self.timer_id.store(id, Ordering::Release);
         TimerData {
             event_data: self as *const _ as *mut _,
+            id,
         }
     }
 
@@ -189,6 +243,9 @@ impl EventData {
 
         #[cfg(may_verif)]
         may_queue::verif::point(may_queue::verif::site::IO_SCHEDULE_TOOK, 0);
+        // the operation is over, its timer entry is stale from here on
+        #[cfg(feature = "io_timeout")]
+        self.timer_id.store(0, Ordering::Release);
         // it's safe to remove the timer since we are running the timer_list in the same thread
         #[cfg(feature = "io_timeout")]
         self.timer.take().map(|h| {
@@ -214,6 +271,9 @@ impl EventData {
 
         #[cfg(may_verif)]
         may_queue::verif::point(may_queue::verif::site::IO_SCHEDULE_TOOK, 0);
+        // the operation is over, its timer entry is stale from here on
+        #[cfg(feature = "io_timeout")]
+        self.timer_id.store(0, Ordering::Release);
         // it's safe to remove the timer since we are running the timer_list in the same thread
         #[cfg(feature = "io_timeout")]
         self.timer.take().map(|h| {
